@@ -363,7 +363,28 @@ pub(crate) async fn commit_ops(n: usize, a: usize, w: &Rc<RefCell<World>>, repli
     let before = simstorage::read_store(&w.borrow().stores[n]);
     let sops: Vec<SOp> = ops.iter().filter_map(op_to_sop).collect();
     let all_ops = ops.clone();
+    let check_depmap = w.borrow().sc.check == "C19";
+    if check_depmap {
+        // have the replica cache its dependency map, so that the commit has something to invalidate
+        let _ = replica.dependency_map(false).await;
+    }
     let r = replica.commit_operations(ops).await;
+    if check_depmap && r.is_ok() && fired_total() == f0 {
+        // after a commit through this replica the (unforced) dependency map reflects the stored data
+        if let Ok(dm) = replica.dependency_map(false).await {
+            let st = simstorage::read_store(&w.borrow().stores[n]);
+            let exp = crate::taskmodel::model_depmap(&st.tasks, &st.working_set);
+            let mut got = BTreeSet::new();
+            for u in st.tasks.keys().chain(before.tasks.keys()) {
+                for d in dm.dependencies(*u) {
+                    got.insert((*u, d));
+                }
+            }
+            if got != exp {
+                w.borrow_mut().violation("task.read", "depmap-after-commit", format!("node {n} action {a}: after committing through the replica its dependency map is {:?}, the stored statuses and dep_ keys give {:?}", got, exp));
+            }
+        }
+    }
     let faulted = fired_total() > f0;
     let after = simstorage::read_store(&w.borrow().stores[n]);
     let mut wb = w.borrow_mut();
@@ -854,7 +875,10 @@ async fn do_expire(n: usize, a: usize, w: &Rc<RefCell<World>>, replica: &mut Rep
     let f0 = fired_total();
     let before = simstorage::read_store(&w.borrow().stores[n]);
     let now = EPOCH0 + at;
-    interpose::set_now_ns(now * 1_000_000_000);
+    // the clock also has a sub-second part (half of the time): "more than 180 days" is decided
+    // on the exact instant
+    let frac_ns: i64 = if at.rem_euclid(2) == 1 { 500_000_000 } else { 0 };
+    interpose::set_now_ns(now * 1_000_000_000 + frac_ns);
     let r = replica.expire_tasks().await;
     interpose::set_now_ns(w.borrow().now_ns);
     let faulted = fired_total() > f0;
@@ -866,7 +890,7 @@ async fn do_expire(n: usize, a: usize, w: &Rc<RefCell<World>>, replica: &mut Rep
         if p.get("status").map(|s| s == "deleted").unwrap_or(false) {
             if let Some(m) = p.get("modified").and_then(|m| parse_i64_like_rust(m)) {
                 // representable as a date (chrono's range) and strictly older than 180 days
-                if (-8_334_601_228_800..=8_210_266_876_799).contains(&m) && m < now - EXPIRY_SECS {
+                if (-8_334_601_228_800..=8_210_266_876_799).contains(&m) && (m as i128) * 1_000_000_000 < (now as i128) * 1_000_000_000 + frac_ns as i128 - (EXPIRY_SECS as i128) * 1_000_000_000 {
                     expect_gone.insert(*u);
                 }
             }
@@ -2050,7 +2074,7 @@ pub fn gen_c20(seed: u64, i: u64, _thorough: bool) -> Value {
             9 => Some((now - 180 * DAY - 1).to_string()),
             10 => Some((now - 180 * DAY + 1).to_string()),
             11 => Some((now - rng.range(181, 4000) * DAY).to_string()),
-            12 => Some(format!("-{}", rng.range(1, 100000))),
+            12 => Some(rng.pick(&["-1", "-99999", "-99999999999999999", "-9223372036854775808", "-8334601228801", "9223372036854775807"]).to_string()),
             13 => Some(format!("+{}", now - 300 * DAY)),
             _ => Some((now - rng.range(0, 179) * DAY).to_string()),
         }
